@@ -106,15 +106,16 @@ def cinput(sx):
     k = sx[1][1]
     ident = sx[2][1]
     gens = sx[3][1:]
-    body = sx[5]
+    preds = sx[4][1:]
+    body = sx[6]
     if k.startswith('struct-'):
         data = 'RStruct %s %s' % (SH[k[7:]], cfields(body))
     elif k == 'enum':
         data = 'REnum [%s]' % '; '.join(cvariant(v) for v in body[1:])
     else:
         data = 'RUnion'
-    return '{| ri_ident := %s; ri_generics := [%s]; ri_attrs := %s; ri_data := %s |}' % (
-        cstr(ident), '; '.join(cgparam(g) for g in gens), cattrs(sx[4]), data)
+    return '{| ri_ident := %s; ri_generics := [%s]; ri_where := [%s]; ri_attrs := %s; ri_data := %s |}' % (
+        cstr(ident), '; '.join(cgparam(g) for g in gens), '; '.join(ctoks(p[1:]) for p in preds), cattrs(sx[5]), data)
 
 
 def coutcome(s):
